@@ -6,6 +6,10 @@ props = [json.loads(l) for l in open(f'{ROOT}/properties.jsonl')]
 
 # id -> dict(level, text, note, technique, engine, design)
 CHECKS = {
+ 'C01': dict(level='model_checking', engine='chainmc',
+   text='Explicit-state BFS over the real chain.Manager+DBStore: all fork-tree shapes (4 blocks quick / 5 thorough) x 3 hardfork regimes x every single-block corruption kind at every position; every submission op (single/duplicate/orphan, segments, mixed batches, AddValidatedV2Blocks) from every reachable state to depth 5/7. After every transition: parent links, every best-chain block reference-valid, tip/State() equal to an independent core/consensus replay, work monotone, tip moves only with sufficient work, failed reorg leaves the canonical store dump unchanged, valid heavier single-branch chains are adopted.',
+   note='go.sia.tech/core consensus is the trusted reference; depth and tree-size bounds; mixed-branch batches exempt from the adoption clause.',
+   technique='explicit-state model checking of the implementation (BFS, complete state keys, clone+replay-validated successors) against an independent reference replay', design='§3 E1, §4 C01'),
  'C17': dict(level='model_checking', engine='kvmc',
    text='Explicit-state enumeration of every applicable operation sequence up to length L (quick 5 / thorough 7 in-memory, 4 / 5 Bolt) over a 2x2x3 bucket/key/value alphabet on MemDB, CacheDB(MemDB), CacheDB(CacheDB(MemDB)), BoltChainDB and CacheDB(BoltChainDB); every Bucket/Get/Iter observation after every operation is compared with a two-map reference model.',
    note='nil-valued puts excluded; nil and empty Get results not distinguished; bbolt atomic commit trusted. Chain-level clause is exercised by the C02 backend replay.',
@@ -32,6 +36,9 @@ m = {
   'add_only': True,
  },
  'engines': [
+  {'name': 'chainmc', 'path': 'engine/cmd/chainmc + engine/internal/{bfs,univ,ledger,recdb,node}', 'serves_properties': ['C01','C02','C03','C04','C05','C06','C13','C14','C19'], 'kind_free_text': 'explicit-state BFS over the real chain.Manager on a recording chain.DB; universes of pre-built fork trees; reference ledger built only from core/consensus'},
+  {'name': 'kvmc', 'path': 'engine/cmd/c17 + engine/internal/kvx', 'serves_properties': ['C17'], 'kind_free_text': 'exhaustive operation-sequence enumeration on real KV backends vs reference maps'},
+  {'name': 'seedmc', 'path': 'engine/cmd/c20', 'serves_properties': ['C20'], 'kind_free_text': 'exhaustive structured input families vs independent BIP-39 reference'},
   {'name': 'sched', 'path': 'hooks/vsync + engine/internal/explore', 'serves_properties': ['C04', 'C07', 'C18'], 'kind_free_text': 'cooperative scheduler (sync shim via import re-pointing) + preemption-bounded DFS over schedules of the real code'},
  ],
  'checks': [], 'not_applicable': [],
